@@ -1,6 +1,6 @@
 (* C19 — No entry point panics, crashes or hangs on any input. *)
 From Slug Require Import Base.Str Base.PathAlg FS.FS Ignore.Rules Ignore.Glob Ignore.GlobProofs Ignore.RulesProofs
-  Slug.Unpack Slug.Pack Slug.PackTerm.
+  Slug.Unpack Slug.Pack Slug.PackTerm Slug.UnpackTotal.
 
 (* Parsing any rule file (blank, whitespace-only, lone "!" and degenerate lines
    included) never takes the index-out-of-range branches: the model's Panic
@@ -16,6 +16,14 @@ Theorem C19_pack_terminates_without_dereference :
   forall fuel src dst chain p n a, height n <= fuel ->
     pack_node fs opts rules root fuel src dst chain p n a <> inr PackFuel.
 Proof. exact pack_node_fuel. Qed.
+
+(* Unpacking any entry list into any file system: the result is ok, illegal slug or error; the
+   branch of the model that stands for a run-time panic (an empty name reaching NewUnpackInfo) is
+   never taken.  (That the decoded entry list is all Unpack sees of the byte stream is validated
+   per run; archive/tar and gzip are exercised for real.) *)
+Theorem C19_unpack_never_panics :
+  forall is_root allow fs dst es, snd (unpack is_root allow fs dst es) <> RPanic.
+Proof. exact unpack_never_panics. Qed.
 
 (* Path resolution in the model is total and structurally terminating (at most
    40 link expansions, as in the kernel): [walk] is a Fixpoint, no fuel. *)
@@ -38,4 +46,5 @@ Example C19_dereference_hazards_terminate :
 Proof. vm_compute. repeat split. Qed.
 
 Print Assumptions C19_rule_file_never_panics.
+Print Assumptions C19_unpack_never_panics.
 Print Assumptions C19_pack_terminates_without_dereference.
